@@ -623,6 +623,7 @@ impl<'a> Iterator for MessageSetsIter<'a> {
                         messages,
                     });
                 }
+                continue;
             }
             // ~ then the next available topic
             if let Some(t) = self.topics.as_mut().and_then(Iterator::next) {
